@@ -76,7 +76,7 @@ class C02:
     level = "exploration"
     tables = True
     rule = (
-        "cases = (command-shaped Python template over names a,b,c / attribute / item forms, binding form per name out of 14 statement kinds + parameters of every kind + global, "
+        "cases = (command-shaped Python template over names a,b,c / attribute / item forms, binding form per name out of 17 statement kinds (nested / starred for and with targets included) + parameters of every kind + global, "
         "scope depth in {module, function, class, nested function, lambda, comprehension}) run through Execer.parse/exec and through builtin exec; plus del-then-use programs (name bound in the same scope, by an earlier input, at module level and deleted through `global`, in a nested block, function-local), "
         "mixed programs (Python templates after handled failing / succeeding / dead commands, compared with CPython on the program without its command lines), atomicity programs (effect; broken line) and executable corpus statements with all names bound; distinct_nontrivial = distinct (template, binding kinds, scope) triples and distinct other programs"
     )
